@@ -17,6 +17,8 @@ pub struct C01 {
     corpus: Vec<CorpusCase>,
     /// (slot, construct) edges already reported by this worker
     seen_edges: std::collections::HashSet<(u8, u8)>,
+    /// the scale programs (built once: some of the texts are half a megabyte)
+    scale: Option<Vec<(String, String)>>,
 }
 
 pub struct CorpusCase {
@@ -85,7 +87,7 @@ pub fn corpus() -> Vec<CorpusCase> {
 
 impl C01 {
     pub fn new() -> Self {
-        C01 { enumerated: None, corpus: corpus(), seen_edges: Default::default() }
+        C01 { enumerated: None, corpus: corpus(), seen_edges: Default::default(), scale: None }
     }
 
     fn enum_budget(ctx: &Ctx) -> usize {
@@ -94,6 +96,13 @@ impl C01 {
             (Flavour::Rel, Tier::Thorough) => 5,
             _ => 3,
         }
+    }
+
+    fn scale(&mut self, ctx: &Ctx) -> &Vec<(String, String)> {
+        if self.scale.is_none() {
+            self.scale = Some(crate::scale::programs_for(ctx.flavour, ctx.tier));
+        }
+        self.scale.as_ref().unwrap()
     }
 
     fn enumerated(&mut self, ctx: &Ctx) -> &Vec<Vec<Stmt>> {
@@ -117,6 +126,7 @@ impl C01 {
         }
         f.push(("operator-grouping", if ctx.flavour == Flavour::Rel { GROUPING_TOTAL } else { 2_000 }));
         f.push(("wild", per_profile * 2));
+        f.push(("scale", self.scale(ctx).len() as u64));
         Families::new(f)
     }
 }
@@ -173,6 +183,13 @@ impl Check for C01 {
     fn chunk_size(&self, _ctx: &Ctx) -> u64 {
         400
     }
+    // the scale programs around 65 536 of something take seconds each (more under the monitors)
+    fn chunk_timeout_s(&self, _ctx: &Ctx) -> u64 {
+        1800
+    }
+    fn case_timeout_s(&self, _ctx: &Ctx) -> u64 {
+        240
+    }
     fn describe_case(&mut self, ctx: &Ctx, idx: u64) -> String {
         self.case_text(ctx, idx).1
     }
@@ -227,6 +244,33 @@ impl Check for C01 {
                     }
                     crate::refsem::RefOutcome::Unspecified(_) => st.count("reference-selfcheck-unspecified"),
                     _ => st.inconclusive(format!("reference interpreter fails on {}", c.name)),
+                }
+            }
+            return;
+        }
+        if fam == "scale" {
+            // programs that are ordinary in everything but size (scale.rs); bigger budgets on both sides
+            let (_, _, i) = self.fams(ctx).locate(idx);
+            let name = self.scale(ctx)[i as usize].0.clone();
+            let mut cc = cfg.clone();
+            cc.budget = Some(60_000_000);
+            let d = differential(&text, &cc, 200_000_000, st);
+            st.count("programs:scale");
+            match d.verdict {
+                Verdict::Agree { .. } => {
+                    st.distinct_hash(crate::rng::hash_str(&name));
+                    st.set_insert("scale-programs-judged", &name);
+                }
+                Verdict::Skip(_) | Verdict::Inconclusive(_) => st.count("scale:not-judged"),
+                Verdict::Mismatch { sig, detail } => {
+                    // at the documented limits of the implementation a syntax error is admissible
+                    let limit_error = matches!(d.obs.as_ref().map(|o| &o.outcome), Some(Outcome::Error(crate::val::ErrKind::Syntax, _)));
+                    if crate::scale::may_hit_limit(&name) && limit_error {
+                        st.count("scale:rejected-at-a-documented-limit");
+                        st.set_insert("scale-programs-judged", &name);
+                    } else {
+                        st.violation(&format!("scale:{}:{}", name.rsplitn(2, '-').nth(1).unwrap_or(&name), sig), format!("{} — {}", name, detail), &crate::obs::clip(&text, 2000));
+                    }
                 }
             }
             return;
@@ -355,6 +399,7 @@ impl C01 {
                 let i = if ctx.flavour == Flavour::Rel { i } else { (i * 7919 + ctx.seed) % GROUPING_TOTAL };
                 (name, to_text(&grouping_case(i)))
             }
+            "scale" => (name, self.scale(ctx)[i as usize].1.clone()),
             "wild" => {
                 let mut r = Rng::for_case(ctx.seed, 190, i);
                 (name, to_text(&crate::wild::wild_program(&mut r)))
